@@ -52,12 +52,9 @@ def run(pid, tier):
     core.import_repo()
     rng = random.Random(core.seed() * 7919 + 17)
     cfgs = seqtest.configs(tier)
-    if pid in ("C05", "C12"):
-        # the tiny-margin optimal_comparison configuration is a recorded finding of C13 / C01 / C11 (negative statistic);
-        # what follows from a negative statistic is not judged again under other properties
-        cfgs = [c for c in cfgs if "optcomp-tiny" not in c["name"]]
     null_inv, any_inv, props = MC_FORMULAS[pid]
-    depth_of = lambda c: (5 if tier == "quick" else 6) if c["N"] == 0 else c["N"]
+    # exhaustive depth: the whole population when it is small, its first draws otherwise (longer samples: the walks)
+    depth_of = lambda c: (5 if tier == "quick" else 6) if (c["N"] == 0 or c["N"] > 8) else c["N"]
 
     # ---- (S) model checking -------------------------------------------------------------------
     jobs = []
@@ -113,7 +110,7 @@ def run(pid, tier):
     nwalk, length = (6, 40) if tier == "quick" else (10, 100)
     for ci, c in enumerate(cfgs):
         cc = dict(c)
-        if cc["N"]:
+        if cc["N"] and not cc.get("drive", {}).get("keepN"):
             # mostly large populations (no boundary convention in play), some small ones (null mean driven to 0 / u)
             cc["N"] = rng.choice([64, 64, 12, 20]) if tier == "quick" else rng.choice([256, 64, 12, 20, 30])
             cc["name"] += "-long"
